@@ -44,6 +44,10 @@ fn mark(c: &mut CmdSpec, path: &str) {
     }
 }
 
+pub fn mark_pub(c: &mut CmdSpec) {
+    mark(c, "");
+}
+
 fn set_width(c: &mut CmdSpec, w: Option<usize>) {
     c.term_width = w;
     for s in c.subs.iter_mut() {
